@@ -46,6 +46,12 @@ func (w *Processor) getOutcome(
 ) (Outcome, State) {
 	nextState := previousOutcome.NextState()
 
+	if nextState == BuildingReport && q.RetryRMNSignatures {
+		// We want to retry getting the RMN signatures on the exact same outcome we had before.
+		// The current observations are all empty (enforced by ValidateObservation), there is no consensus to compute.
+		return previousOutcome, BuildingReport
+	}
+
 	consensusObservation, err := getConsensusObservation(w.lggr, w.reportingCfg.F, w.destChain, aos)
 	if err != nil {
 		w.lggr.Warnw("Get consensus observation failed, empty outcome", "err", err)
@@ -56,11 +62,6 @@ func (w *Processor) getOutcome(
 	case SelectingRangesForReport:
 		return reportRangesOutcome(q, w.lggr, consensusObservation, w.offchainCfg.MaxMerkleTreeSize, w.destChain), nextState
 	case BuildingReport:
-		if q.RetryRMNSignatures {
-			// We want to retry getting the RMN signatures on the exact same outcome we had before.
-			// The current observations should all be empty.
-			return previousOutcome, BuildingReport
-		}
 		return buildReport(q, w.lggr, consensusObservation, previousOutcome), nextState
 	case WaitingForReportTransmission:
 		return checkForReportTransmission(
